@@ -100,6 +100,15 @@ func handle(line string) string {
 			return "BADREQ"
 		}
 		return exprRun(string(b))
+	case "EXPRPOS":
+		if len(f) != 2 {
+			return "BADREQ"
+		}
+		b, ok := unhex(f[1])
+		if !ok {
+			return "BADREQ"
+		}
+		return exprPosRun(string(b))
 	case "TYPE":
 		if len(f) != 2 {
 			return "BADREQ"
